@@ -150,6 +150,9 @@ def run(prog, rep):
     )
     mod = "tdfTypes.py"
     string_write_rules(prog, rep)
+    # 'reading it back returns the identical string': reader and writer use one codec at every call site
+    from .. import primitives as PR
+    rep.attempt(PR.string_codec, prog, rep, with_nul_cut=False)
     wa = WriteAnalysis(prog)
     cls = wa.cls
     fq = "BTSString.write"
@@ -271,6 +274,44 @@ def run(prog, rep):
             if isinstance(t, Raw) and t.op == "write" and t.value is not None and any(isinstance(x, ast.Call) and isinstance(x.func, ast.Attribute) and x.func.attr == "encode" for x in ast.walk(t.value)):
                 rep.fail("str-call-sites", u.writer.module.path.name, u.writer.qualname, t.stmt or t.node,
                          "a text field is encoded and written without BTSString.write: nothing refuses over-long text or guarantees the NUL terminator, so it can spill into the next field")
+    # each record's string fields have the same widths, in the same order, on the write and on the read side (a label written into
+    # a 256-byte field and read from its first 32 bytes comes back cut)
+    from ..layout import Str
+    text_attrs = set()
+    for u in cd.all_units():
+        # (an empty constant string written as filler is a pad, not a text field; so is a string read whose value is dropped)
+        ws = [t for t in walk_terms(u.wterms) if isinstance(t, Str) and not (isinstance(t.value, ast.Constant) and t.value.value == "")]
+        rs = [t for t in walk_terms(u.rterms) if isinstance(t, Str) and getattr(t, "used", True)]
+        for t in ws:
+            for x in ast.walk(t.value) if t.value is not None else []:
+                if isinstance(x, ast.Attribute) and isinstance(x.value, ast.Name) and x.value.id == "self":
+                    text_attrs.add(x.attr)
+        wv = [prog.const_int(u.writer.module, t.width) for t in ws]
+        rv = [prog.const_int(u.reader.module, t.width) for t in rs] if u.reader is not None else []
+        if u.reader is None or not ws:
+            continue
+        if wv == rv:
+            rep.ok("str-call-sites", f"{u.name}: string field widths {wv} on both sides")
+        elif len(wv) == len(rv):
+            k_ = next(i for i, (a, b) in enumerate(zip(wv, rv)) if a != b)
+            rep.fail("str-call-sites", u.reader.module.path.name, u.reader.qualname, rs[k_].stmt or rs[k_].node,
+                     f"string field {k_ + 1} of {u.name} is written {wv[k_]} bytes wide and read {rv[k_]} bytes wide: a valid text longer than the narrower width is not read back identically",
+                     construct=f"{u.name} string field {k_ + 1} width {wv[k_]} vs {rv[k_]}")
+    # a text on its way into a field is never cut: a slice of the caller's string stored into a text attribute / passed as one
+    # silently truncates what the field would have refused
+    for m in prog.modules.values():
+        for fn in [x for c in m.classes.values() for x in c.all_funcs()] + list(m.functions.values()):
+            for x in walk_no_nested(fn.node):
+                cands = []
+                if isinstance(x, ast.Call):
+                    cands += [(k.arg, k.value) for k in x.keywords if k.arg in text_attrs]
+                if isinstance(x, ast.Assign):
+                    cands += [(t.attr, x.value) for t in x.targets if isinstance(t, ast.Attribute) and t.attr in text_attrs]
+                for nm, v in cands:
+                    if isinstance(v, ast.Subscript) and isinstance(v.slice, ast.Slice):
+                        rep.fail("str-refuse-before-return", m.path.name, fn.qualname, x, f"`{nm}` receives the slice `{norm(v)}`: an over-long text is cut to fit instead of being refused with ValueError",
+                                 construct=f"{fn.qualname} slices {nm}")
+    rep.ok("str-refuse-before-return", f"no text attribute ({', '.join(sorted(text_attrs))}) is given a slice of a string")
     # every decoded string field has an encoder site (a refactoring may merge duplicate writers, never drop below the readers)
     rep.floor("str-call-sites/writers", n_w, max(n_r, 9))
     rep.floor("str-call-sites/readers", n_r, 9)
